@@ -11,7 +11,8 @@ from . import core, suite
 from . import formula as F
 from .values import enc
 
-FN = {'D': '#DIV/0!', 'A': '#N/A', 'V': '#VALUE!', 'N': '#NUM!'}
+FN = {'D': '#DIV/0!', 'A': '#N/A', 'V': '#VALUE!', 'N': '#NUM!', 'E': '#ERROR!', 'R': '#REF!', 'M': '#NAME?', 'L': '#NULL!',
+      'G': '#GETTING_DATA'}
 LIT = ['#ERROR!', '#DIV/0!', '#NAME?', '#N/A', '#NULL!', '#NUM!', '#REF!', '#VALUE!']
 
 
@@ -53,7 +54,7 @@ def rand_leaf(rng):
         return F.binop('/', F.num(rng.choice(['1', '7'])), F.num('0'))
     if k < 0.65:
         return F.call('NA')
-    tag = rng.choice('DAVN')
+    tag = rng.choice('DAVNDAVNERMLG')
     if k < 0.8:
         return F.call('ERRV' + tag)
     if k < 0.93:
@@ -117,7 +118,9 @@ def main(tier, replay=None):
     # text spelled like a code), under every operator and every trapping function
     srcs = [F.errlit(c) for c in LIT[:4]] + [F.binop('/', F.num('1'), F.num('0')), F.call('NA'), F.call('ERRVA'), F.call('ERRRD'),
                                              F.call('SUM', F.call('ERRVN'))]
-    plains = [F.string(''), F.var('NULL'), F.string('#N/A'), F.string('#DIV/0!'), F.num('0'), F.var('FALSE'), F.string('qq')]
+    srcs += [F.call('ERRV' + t) for t in 'ERMLG'] + [F.call('ERRR' + t) for t in 'EG']
+    plains = [F.string(''), F.var('NULL'), F.string('#N/A'), F.string('#DIV/0!'), F.num('0'), F.var('FALSE'), F.string('qq'),
+              F.arr(F.num('1'), F.num('2')), F.arr(F.string('a'))]
     for e in srcs:
         for pl in plains:
             for op in ('&', '+', '=', '<>', '<', '*'):
@@ -125,6 +128,12 @@ def main(tier, replay=None):
                 asts.append(F.binop(op, pl, P(e)))
                 asts.append(F.call('ISERROR', F.binop(op, pl, P(e))))
                 asts.append(F.call('IFERROR', F.binop(op, P(e), pl), F.num('9')))
+    for e in srcs:
+        for f in ('ISERROR', 'ISERR', 'ISNA', 'ERROR.TYPE'):
+            asts.append(F.call(f, e))
+            asts.append(F.call(f, F.call('SUM', e)))
+        asts += [F.call('IFERROR', e, F.num('9')), F.call('IFNA', e, F.num('9')), F.binop('=', F.call('ISERROR', e),
+                 F.call('OR', F.call('ISERR', e), F.call('ISNA', e)))]
     for pl in plains:
         for f in ('ISERROR', 'ISERR', 'ISNA', 'ERROR.TYPE'):
             asts.append(F.call(f, pl))
